@@ -282,9 +282,13 @@ def extra_grams(tier, seed, start_gid):
     nt = len(temps)
     for i, (a, al) in enumerate(atoms):
         if tier == "thorough":
-            ts = range(nt)
+            ts = [(i + j) % nt for j in range(6)]      # six of the ten templates per atom, rotating
         else:
             ts = sorted({i % nt, (i * 3 + 1) % nt})
+        if a in ("eolf", "everything"):
+            # these atoms succeed without consuming at the end of the input: only templates that cannot loop on that
+            ok = [0, 2, 4, 6, 7, 8]
+            ts = sorted({ok[t % len(ok)] for t in ts})
         for t in ts:
             body = temps[t].replace("%s", a)
             g = G(gid, [], body, tags=["c06", "c06:t%d" % t], alphabet=al)
